@@ -1,6 +1,6 @@
 #!/bin/bash
 # run every stored harmless rewrite (benign/<id>) against the quick tier of its property; writes benign/RESULTS.txt
 cd /verif
-ls -d benign/C*_* benign/B2_C*_* | xargs -P ${P:-5} -n1 tools/try_benign.sh 2>&1 | grep -v conda | sort > benign/RESULTS.txt
+ls -d benign/C*_* benign/B2_C*_* benign/B3_C*_* | xargs -P ${P:-5} -n1 tools/try_benign.sh 2>&1 | grep -v conda | sort > benign/RESULTS.txt
 grep -c "exit=0" benign/RESULTS.txt
 grep -v "exit=0" benign/RESULTS.txt | cut -c1-200
